@@ -140,14 +140,16 @@ def _eq(a, b):
         return False
 
 
-def molecule_oracle(mol):
-    """round trips of a validated Molecule; returns a list of (what, observed)."""
+def molecule_oracle(mol, recipe=None):
+    """round trips of a validated Molecule; returns (list of (what, observed), index core)."""
     from qcelemental.models import Molecule
-    from qcelemental.molparse import from_schema, to_schema
-    from qcelemental.exceptions import ValidationError
+    from qcelemental.molparse import from_schema
     bad = []
     if not bool(mol.validated):
         return bad, None  # the round-trip half of the property is about validated molecules (as in C04)
+    kw = (recipe or {}).get("kwargs")
+    if kw is not None:
+        bad += input_kept(kw, mol)
     d = mol.dict()
     m2 = Molecule(**d)
     if not (m2 == mol) or m2.get_hash() != mol.get_hash():
@@ -156,43 +158,206 @@ def molecule_oracle(mol):
     m3 = Molecule(**dj)
     if m3.get_hash() != mol.get_hash():
         bad.append(("Molecule(**json.loads(mol.json())) has a different hash", {"hash": mol.get_hash(), "hash_rebuilt": m3.get_hash()}))
+    # the same dictionary, re-validated from scratch
+    m4 = Molecule(**{k: v for k, v in d.items() if k != "validated"})
+    if m4.get_hash() != mol.get_hash():
+        chg = [f for f in mol.hash_fields if not _same_field(f, getattr(mol, f), getattr(m4, f))]
+        bad.append((f"re-validating mol.dict() gives a different hash (fields {chg})",
+                    {"hash": mol.get_hash(), "hash_revalidated": m4.get_hash(), "masses": [mol.masses.tolist(), m4.masses.tolist()]}))
+    for f in ("masses", "mass_numbers", "atomic_numbers", "real", "atom_labels"):
+        if not _same_field(f, getattr(mol, f), getattr(m4, f)):
+            bad.append((f"re-validating mol.dict() changes '{f}'", {"held": repr(getattr(mol, f))[:200], "revalidated": repr(getattr(m4, f))[:200]}))
+    # from_schema must read every key of the dictionary: compare with the molrec made from the instance's own fields
     d2 = {k: v for k, v in d.items() if k not in ("validated", "identifiers", "extras", "id")}
-    m0 = from_schema(d2)  # a validated molecule must be accepted again (an exception here is reported by the caller)
+    mfs = from_schema(d2)  # a validated molecule must be accepted again (an exception here is reported by the caller)
+    m0 = molrec_of_instance(mol)
+    core = None
+    if m0 is not None:
+        for k in sorted(set(m0) | set(mfs)):
+            if k == "provenance":
+                continue
+            if k not in m0 or k not in mfs or not _same_field(k, m0[k], mfs[k]):
+                bad.append((f"from_schema(mol.dict()) does not read '{k}' as the molecule holds it",
+                            {"molecule": repr(m0.get(k, "<absent>"))[:300], "from_schema": repr(mfs.get(k, "<absent>"))[:300]}))
+        more, core = schema_trip(m0, "molrec of the instance")
+        bad += more
+    return bad, core
+
+
+FIELD_MAP = [("symbols", "elem"), ("atomic_numbers", "elez"), ("mass_numbers", "elea"), ("masses", "mass"), ("real", "real"),
+             ("atom_labels", "elbl"), ("molecular_charge", "molecular_charge"), ("molecular_multiplicity", "molecular_multiplicity"),
+             ("fragment_charges", "fragment_charges"), ("fragment_multiplicities", "fragment_multiplicities"),
+             ("fix_com", "fix_com"), ("fix_orientation", "fix_orientation"), ("fix_symmetry", "fix_symmetry"),
+             ("connectivity", "connectivity"), ("comment", "comment")]
+
+
+def _conn(c):
+    return None if c is None else sorted((int(a), int(b), float(o)) for a, b, o in c)
+
+
+def _same_field(key, a, b):
+    if key == "connectivity":
+        return _conn(a) == _conn(b)
+    if a is None or b is None:
+        return a is None and b is None
+    if key in ("elem", "symbols", "elbl", "atom_labels"):
+        return [str(x) for x in np.asarray(a).reshape(-1)] == [str(x) for x in np.asarray(b).reshape(-1)]
+    if isinstance(a, (list, tuple, np.ndarray)) or isinstance(b, (list, tuple, np.ndarray)):
+        try:
+            aa, bb = np.asarray(a), np.asarray(b)
+            return aa.shape == bb.shape and bool(np.array_equal(aa, bb))
+        except Exception:
+            return _eq(a, b)
+    return _eq(a, b)
+
+
+def schema_trip(m0, tag):
+    """to_schema / from_schema on a molrec m0 (from from_arrays or from_string, i.e. NOT produced by from_schema):
+    every field the schema carries is compared with the molrec, the molrec read back is compared key by key, the second
+    translation must reproduce the first, and re-validating the exported dictionary must not change the hash."""
+    from qcelemental.models import Molecule
+    from qcelemental.molparse import from_schema, to_schema
+    from qcelemental.exceptions import ValidationError
+    bad = []
+    nat = len(m0["elem"])
+    g0 = np.asarray(m0["geom"], dtype=float).reshape(-1)
+    if m0["units"] == "Bohr":
+        want_g = [g0]
+    else:
+        want_g = [g0 * m0["input_units_to_au"]] if "input_units_to_au" in m0 else [g0 / b for b in BOHR2ANG]
+    seps = [int(x) for x in m0["fragment_separators"]]
+    bounds = [0] + seps + [nat]
+    want_frags = [list(range(bounds[i], bounds[i + 1])) for i in range(len(bounds) - 1)]
+    hashes = set()
     core = None
     for v in (1, 2):
         for np_out in (True, False):
+            what = f"{tag}: to_schema(m, {v}, np_out={np_out})"
             s = to_schema(m0, dtype=v, np_out=np_out)
             ms = s["molecule"] if v == 1 else s
-            m1 = from_schema(s)
-            for k in m0:
-                if k == "provenance":
+            if v == 1 and (s.get("schema_name"), s.get("schema_version")) != ("qcschema_input", 1):
+                bad.append((what + " has the wrong schema_name/schema_version", [s.get("schema_name"), s.get("schema_version")]))
+            if v == 2 and (s.get("schema_name"), s.get("schema_version")) != ("qcschema_molecule", 2):
+                bad.append((what + " has the wrong schema_name/schema_version", [s.get("schema_name"), s.get("schema_version")]))
+            for sk, mk in FIELD_MAP:
+                if mk not in m0 and sk not in ms:
                     continue
-                if k not in m1 or not _eq(m0[k], m1[k]):
-                    bad.append((f"from_schema(to_schema(m, {v}, np_out={np_out})) changed '{k}'",
-                                {"before": repr(m0[k])[:300], "after": repr(m1.get(k))[:300]}))
-            extra = set(m1) - set(m0)
-            if extra:
-                bad.append((f"from_schema(to_schema(m, {v}, np_out={np_out})) added keys", sorted(extra)))
-            if not _eq(np.asarray(ms["geometry"]).reshape(-1), np.asarray(m0["geom"]).reshape(-1)):
-                bad.append((f"to_schema(dtype={v}) geometry is not the Bohr geometry of a Bohr molrec", None))
+                if not _same_field(mk, m0.get(mk), ms.get(sk)):
+                    bad.append((what + f" exports '{sk}' different from the molrec's '{mk}'",
+                                {"molrec": repr(m0.get(mk))[:300], "schema": repr(ms.get(sk))[:300]}))
+            g = np.asarray(ms["geometry"], dtype=float).reshape(-1)
+            if m0["units"] == "Bohr" or "input_units_to_au" in m0:
+                okg = bool(np.array_equal(g, want_g[0]))
+            else:
+                okg = any(np.allclose(g, w, rtol=1e-8, atol=1e-10) for w in want_g)
+            if not okg:
+                bad.append((what + " geometry is not the molrec geometry in Bohr", {"exported": g.tolist(), "bohr": want_g[0].tolist()}))
+            frs = [[int(i) for i in f] for f in ms["fragments"]]
+            if frs != want_frags:
+                bad.append((what + " fragments do not follow the separators", {"fragments": frs, "expected": want_frags}))
             if not np_out:
                 try:
                     json.dumps(s)
                 except TypeError as e:
-                    bad.append((f"to_schema(dtype={v}, np_out=False) is not JSON-able", str(e)))
-            nat = len(m0["elem"])
-            frs = [list(map(int, f)) for f in ms["fragments"]]
-            if [i for f in frs for i in f] != list(range(nat)):
-                bad.append((f"to_schema(dtype={v}) fragments do not list every atom once in order", frs))
-            core = (nat, [int(x) for x in m0["fragment_separators"]], frs, [int(x) for x in m1["fragment_separators"]])
+                    bad.append((what + " is not JSON-able", str(e)))
+            m1 = from_schema(s)
+            for k in sorted(set(m0) | set(m1)):
+                if k in ("provenance", "units", "geom", "input_units_to_au"):
+                    continue
+                if k == "name" and k not in m0:
+                    continue   # to_schema names an unnamed molecule by its formula (documented)
+                if k not in m1 or k not in m0 or not _same_field(k, m0[k], m1[k]):
+                    bad.append((f"{tag}: from_schema(to_schema(m, {v}, np_out={np_out})) changed '{k}'",
+                                {"before": repr(m0.get(k, "<absent>"))[:300], "after": repr(m1.get(k, "<absent>"))[:300]}))
+            if m1.get("units") != "Bohr" or not np.array_equal(np.asarray(m1["geom"], dtype=float).reshape(-1), g):
+                bad.append((f"{tag}: from_schema(to_schema(m, {v}, np_out={np_out})) is not the exported Bohr geometry", None))
+            s2 = to_schema(m1, dtype=v, np_out=np_out)
+            ms2 = s2["molecule"] if v == 1 else s2
+            diff = [k for k in sorted(set(ms) | set(ms2)) if k != "provenance" and
+                    not (k in ms and k in ms2 and (_same_field(k, ms[k], ms2[k]) if k != "fragments" else _eq(ms[k], ms2[k])))]
+            if diff:
+                bad.append((f"{tag}: a second translation to_schema(from_schema(to_schema(m, {v}, np_out={np_out}))) changed {diff}",
+                            {k: [repr(ms.get(k))[:150], repr(ms2.get(k))[:150]] for k in diff[:4]}))
             try:
                 to_schema(m0, dtype=v, units="Angstrom", np_out=np_out)
-                bad.append((f"to_schema(dtype={v}, units='Angstrom') did not refuse", None))
+                bad.append((f"{tag}: to_schema(dtype={v}, units='Angstrom') did not refuse", None))
             except ValidationError:
                 pass
-    if not _eq(np.asarray(mol.geometry).reshape(-1), np.asarray(m0["geom"]).reshape(-1)):
-        bad.append(("from_schema(mol.dict()) geometry differs from mol.geometry (both Bohr)", None))
-    return bad, core
+            # the exported dictionary taken as is, and re-validated
+            as_is = Molecule(**{**ms, "validated": True})
+            redo = Molecule(**{k: x for k, x in ms.items() if k != "validated"})
+            hashes.add(as_is.get_hash())
+            if redo.get_hash() != as_is.get_hash():
+                chg = [f for f in as_is.hash_fields if not _same_field(f, getattr(as_is, f), getattr(redo, f))]
+                bad.append((f"{tag}: re-validating the dictionary exported by to_schema(m, {v}, np_out={np_out}) changes the hash "
+                            f"(fields {chg})", {"hash": as_is.get_hash(), "hash_revalidated": redo.get_hash(),
+                                                "masses": [as_is.masses.tolist(), redo.masses.tolist()]}))
+            for f in ("masses", "mass_numbers", "atomic_numbers", "real", "atom_labels"):
+                if not _same_field(f, getattr(as_is, f), getattr(redo, f)):
+                    bad.append((f"{tag}: re-validating the dictionary exported by to_schema(m, {v}, np_out={np_out}) changes '{f}'",
+                                {"exported": repr(getattr(as_is, f))[:200], "revalidated": repr(getattr(redo, f))[:200]}))
+            core = (nat, seps, frs, [int(x) for x in m1["fragment_separators"]])
+    if len(hashes) > 1:
+        bad.append((f"{tag}: schema versions / np_out settings export molecules with different hashes", sorted(hashes)))
+    # deduplicate (the same defect shows under four settings)
+    out, seen = [], set()
+    for w, o in bad:
+        key = w.split(": ", 1)[-1].split("(m, ")[0] + w.split(")")[-1]
+        if key not in seen:
+            seen.add(key)
+            out.append((w, o))
+    return out, core
+
+
+def molrec_of_instance(mol):
+    """the molrec of a validated Molecule built WITHOUT from_schema (from_arrays on the instance's own fields)"""
+    from qcelemental.molparse import from_arrays
+    nat = len(mol.symbols)
+    frs = [[int(i) for i in f] for f in mol.fragments]
+    if [i for f in frs for i in f] != list(range(nat)):
+        return None
+    seps = list(np.cumsum([len(f) for f in frs])[:-1])
+    return from_arrays(geom=np.asarray(mol.geometry, dtype=float).reshape(-1), elea=np.asarray(mol.mass_numbers), elez=np.asarray(mol.atomic_numbers),
+                       elem=[str(x) for x in mol.symbols], mass=np.asarray(mol.masses, dtype=float), real=np.asarray(mol.real),
+                       elbl=[str(x) for x in mol.atom_labels], name=mol.name, units="Bohr", fix_com=mol.fix_com,
+                       fix_orientation=mol.fix_orientation, fix_symmetry=mol.fix_symmetry, fragment_separators=seps,
+                       fragment_charges=list(mol.fragment_charges), fragment_multiplicities=list(mol.fragment_multiplicities),
+                       molecular_charge=mol.molecular_charge, molecular_multiplicity=mol.molecular_multiplicity, comment=mol.comment,
+                       connectivity=mol.connectivity, speclabel=False, verbose=0)
+
+
+def input_kept(kw, mol):
+    """what the caller supplied to the validating constructor is what the instance holds"""
+    bad = []
+    if kw.get("orient"):
+        return bad
+    nat = len(kw["symbols"])
+    chk = [("masses", lambda: np.asarray(mol.masses, dtype=float), lambda v: np.asarray(v, dtype=float)),
+           ("mass_numbers", lambda: np.asarray(mol.mass_numbers), lambda v: np.asarray(v)),
+           ("real", lambda: np.asarray(mol.real), lambda v: np.asarray(v)),
+           ("atom_labels", lambda: [str(x) for x in mol.atom_labels], lambda v: [str(x) for x in v]),
+           ("fragments", lambda: [[int(i) for i in f] for f in mol.fragments], lambda v: [[int(i) for i in f] for f in v]),
+           ("connectivity", lambda: _conn(mol.connectivity), lambda v: _conn([(min(a, b), max(a, b), o) for a, b, o in v])),
+           ("molecular_charge", lambda: float(mol.molecular_charge), float),
+           ("molecular_multiplicity", lambda: int(mol.molecular_multiplicity), int),
+           ("fix_com", lambda: bool(mol.fix_com), bool), ("fix_orientation", lambda: bool(mol.fix_orientation), bool),
+           ("fix_symmetry", lambda: mol.fix_symmetry, lambda v: v), ("name", lambda: mol.name, lambda v: v),
+           ("comment", lambda: mol.comment, lambda v: v)]
+    for key, got, norm in chk:
+        if kw.get(key) is None:
+            continue
+        g, w = got(), norm(kw[key])
+        if key == "mass_numbers":     # -1 means "not specified": only the specified isotopes must be kept
+            keep = w != -1
+            g, w = np.asarray(g)[keep], w[keep]
+        same = bool(np.array_equal(g, w)) if isinstance(w, np.ndarray) else g == w
+        if not same:
+            bad.append((f"Molecule(...) does not hold the '{key}' it was given", {"given": repr(kw[key])[:300], "held": repr(g)[:300]}))
+    if [str(x) for x in mol.symbols] != [str(x).title() for x in kw["symbols"]]:
+        bad.append(("Molecule(...) does not hold the symbols it was given", [str(x) for x in mol.symbols]))
+    if not np.allclose(np.asarray(mol.geometry, dtype=float).reshape(-1), np.asarray(kw["geometry"], dtype=float).reshape(-1), rtol=0, atol=6e-9):
+        bad.append(("Molecule(...) does not hold the geometry it was given (beyond the 8-decimal rounding)", None))
+    return bad
 
 
 def angstrom_oracle(text, coords_ang):
@@ -205,6 +370,7 @@ def angstrom_oracle(text, coords_ang):
         bad.append(("from_string did not keep units Angstrom", m0["units"]))
         return bad
     want = [np.asarray(coords_ang, dtype=float).reshape(-1) / b for b in BOHR2ANG]
+    bad += schema_trip(m0, "molrec from_string (Angstrom)")[0]
     for v in (1, 2):
         s = to_schema(m0, dtype=v)
         ms = s["molecule"] if v == 1 else s
@@ -258,7 +424,7 @@ def _oracle(recipe):
         try:
             bad, core = [], None
             if (recipe.get("kwargs") or {}).get("validate") is not False:   # went through the validating constructor
-                bad, core = molecule_oracle(inst)
+                bad, core = molecule_oracle(inst, recipe)
             info["core"] = core
             if "from_data" in recipe and recipe.get("angstrom_coords") is not None:
                 bad = bad + angstrom_oracle(recipe["from_data"], recipe["angstrom_coords"])
@@ -317,6 +483,33 @@ def grid_points(rng, n):
     return [[1.5 * x + jit(), 1.5 * y + jit(), 1.5 * z + jit()] for x, y, z in pts]
 
 
+AVG_WEIGHT = {"H": 1.008, "He": 4.0026, "Li": 6.94, "C": 12.011, "N": 14.007, "O": 15.999, "F": 18.998, "Ne": 20.180, "Na": 22.990,
+              "Cl": 35.45, "Ar": 39.948, "Fe": 55.845, "Br": 79.904, "Xe": 131.29}
+ISOTOPES = {"H": [2, 3], "He": [3], "Li": [6], "C": [13, 14], "N": [15], "O": [17, 18], "Cl": [37], "Ne": [22], "Fe": [54, 57], "Br": [81]}
+
+
+def pick_mass(rng, sym):
+    """a user mass for one atom: tabulated isotope mass, average atomic weight, rounded / slightly perturbed isotope
+    masses inside and outside the 1e-3 tolerance within which a mass identifies its nuclide"""
+    from qcelemental import periodictable
+    sym = sym.title()
+    m0 = float(periodictable.to_mass(sym))
+    k = rng.randint(0, 6)
+    if k == 0:
+        return m0
+    if k == 1:
+        return AVG_WEIGHT[sym]
+    if k == 2:
+        return round(m0, 3)
+    if k == 3:
+        return m0 + rng.choice([4e-4, -4e-4, 9e-4])
+    if k == 4:
+        return m0 + rng.choice([3e-3, -2e-3, 0.0105])
+    if k == 5 and sym in ISOTOPES:
+        return round(float(periodictable.to_mass(f"{sym}{rng.choice(ISOTOPES[sym])}")), rng.choice([4, 6, 12]))
+    return round(m0 * rng.choice([1.0005, 0.9995]), 6)
+
+
 def gen_molecule_kwargs(rng, nmax=6):
     nat = rng.randint(1, nmax)
     syms = [rng.choice(ELEMS) for _ in range(nat)]
@@ -332,9 +525,13 @@ def gen_molecule_kwargs(rng, nmax=6):
         kw["real"] = [rng.random() < 0.7 for _ in range(nat)]
     if rng.random() < 0.25:
         kw["atom_labels"] = [rng.choice(["", "a", "1", "x2"]) for _ in range(nat)]
-    if rng.random() < 0.2:
-        from qcelemental import periodictable
-        kw["masses"] = [float(periodictable.to_mass(s)) * rng.choice([1.0, 1.0, 1.0005]) for s in syms]
+    r = rng.random()
+    if r < 0.35:
+        kw["masses"] = [pick_mass(rng, s) for s in syms]          # also for ghost atoms
+    elif r < 0.5:
+        kw["mass_numbers"] = [rng.choice(ISOTOPES.get(s.title(), [-1]) + [-1]) for s in syms]
+        if all(a == -1 for a in kw["mass_numbers"]):
+            kw.pop("mass_numbers")
     if nat >= 2 and rng.random() < 0.45:
         nfr = rng.randint(2, min(nat, 4))
         cuts = sorted(rng.sample(range(1, nat), nfr - 1))
@@ -420,8 +617,13 @@ def gen_molecule_text(rng):
             lines.append("--")
         el = rng.choice(["H", "He", "C", "N", "O", "Ne", "Ar"])
         lab = el + rng.choice(["", "", "1", "_a"])
+        r = rng.random()
+        if r < 0.15 and el in ISOTOPES:
+            lab = str(rng.choice(ISOTOPES[el])) + lab
+        elif r < 0.45:
+            lab = lab + "@" + repr(pick_mass(rng, el))
         if rng.random() < 0.2:
-            lab = "@" + lab if rng.random() < 0.5 else f"Gh({lab})"
+            lab = "@" + lab if rng.random() < 0.5 else f"Gh({lab})"      # a ghost may carry a mass: Gh(He@4.0026)
         p = [round(c, 6) for c in p]
         coords.append(p)
         lines.append(f"{lab} {p[0]!r} {p[1]!r} {p[2]!r}")
@@ -431,6 +633,57 @@ def gen_molecule_text(rng):
     if rng.random() < 0.3:
         lines.append("no_reorient")
     return "\n".join(lines), (coords if ang else None)
+
+
+def gen_molrec_arrays(rng):
+    """keyword arguments of molparse.from_arrays: a molrec that does not come from from_schema"""
+    nat = rng.randint(1, 5)
+    syms = [rng.choice(ELEMS) for _ in range(nat)]
+    kw = {"elem": syms, "geom": [c for p in grid_points(rng, nat) for c in p], "units": rng.choice(["Bohr", "Bohr", "Angstrom"])}
+    if kw["units"] == "Angstrom" and rng.random() < 0.4:
+        kw["input_units_to_au"] = 1.0 / 0.52917721067
+    r = rng.random()
+    if r < 0.6:
+        kw["mass"] = [pick_mass(rng, s) for s in syms]
+    elif r < 0.8:
+        kw["elea"] = [rng.choice(ISOTOPES.get(s, [None]) + [None]) for s in syms]
+    if rng.random() < 0.4:
+        kw["real"] = [rng.random() < 0.6 for _ in range(nat)]
+    if rng.random() < 0.3:
+        kw["elbl"] = [rng.choice(["", "a", "1", "_x"]) for _ in range(nat)]
+    if nat >= 2 and rng.random() < 0.5:
+        kw["fragment_separators"] = sorted(rng.sample(range(1, nat), rng.randint(1, min(nat - 1, 3))))
+    if nat >= 2 and rng.random() < 0.4:
+        bonds = {tuple(sorted(rng.sample(range(nat), 2))) for _ in range(rng.randint(1, 3))}
+        kw["connectivity"] = [[a, b, rng.choice([1, 2, 1.5, 0.5])] for a, b in sorted(bonds)]
+    if rng.random() < 0.2:
+        kw["molecular_charge"] = rng.choice([0, 1, -1, 2])
+    for k in ("fix_com", "fix_orientation"):
+        if rng.random() < 0.3:
+            kw[k] = rng.random() < 0.5
+    if rng.random() < 0.15:
+        kw["fix_symmetry"] = rng.choice(["c1", "cs"])
+    if rng.random() < 0.2:
+        kw["name"] = rword(rng, 6)
+    if rng.random() < 0.2:
+        kw["comment"] = rword(rng, 10)
+    return kw
+
+
+def molrec_oracle(arrays):
+    import contextlib
+    import io
+    from qcelemental.molparse import from_arrays
+    with contextlib.redirect_stdout(io.StringIO()):
+        try:
+            m0 = from_arrays(speclabel=False, verbose=0, **copy.deepcopy(arrays))
+        except Exception as e:
+            raise Refused(f"{type(e).__name__}: {e}") from e
+        try:
+            bad, core = schema_trip(m0, "molrec from_arrays")
+        except Exception as e:
+            bad, core = [(f"round trip of a molrec accepted by from_arrays raised {type(e).__name__}: {e}"[:300], None)], None
+    return [{"what": w, "observed": o} for w, o in bad], core
 
 
 def gen_provenance_kwargs(rng):
@@ -715,12 +968,26 @@ MUST_REJECT = [
     {"model": "AtomicResultProperties", "kwargs": {"ccsdt_dipole_moment": [1.0, 2.0]}},
 ]
 
+# molrecs whose masses are off the isotope table (average weights -> mass number -1), explicit isotopes, ghost with a mass
+MOLREC_CORPUS = [
+    {"elem": ["O", "H", "H"], "geom": [0, 0, 0, 0, 0, 1.8, 0, 1.7, -0.5], "mass": [15.999, 1.008, 1.008], "units": "Bohr"},
+    {"elem": ["O", "H", "H"], "geom": [0, 0, 0, 0, 0, 0.96, 0, 0.93, -0.3], "mass": [15.999, 2.0141, 1.008], "units": "Angstrom"},
+    {"elem": ["C", "H"], "geom": [0, 0, 0, 0, 0, 2.0], "elea": [13, 2], "units": "Bohr"},
+    {"elem": ["He", "Ne"], "geom": [0, 0, 0, 0, 0, 5.0], "mass": [4.0026, 20.18], "real": [True, False], "fragment_separators": [1],
+     "units": "Bohr"},
+]
+
 CORPUS = [
     {"model": "Molecule", "kwargs": {"symbols": ["He"], "geometry": [0, 0, 0]}},
     {"model": "Molecule", "kwargs": {"symbols": ["O", "H", "H"], "geometry": [0, 0, 0, 0, 0, 1.8, 0, 1.7, -0.5],
                                      "connectivity": [[0, 1, 1], [0, 2, 1.0]], "fragments": [[0, 1], [2]], "real": [True, True, False]}},
     {"model": "Molecule", "from_data": "He 0 0 0\n--\n@Ne 0 0 3.5\nunits angstrom", "dtype": "psi4",
      "angstrom_coords": [[0, 0, 0], [0, 0, 3.5]]},
+    {"model": "Molecule", "kwargs": {"symbols": ["O", "H", "H"], "geometry": [0, 0, 0, 0, 0, 1.8, 0, 1.7, -0.5],
+                                     "masses": [15.999, 1.008, 2.0141]}},
+    {"model": "Molecule", "kwargs": {"symbols": ["C", "H"], "geometry": [0, 0, 0, 0, 0, 2.0], "mass_numbers": [13, 2]}},
+    {"model": "Molecule", "from_data": "O@15.999 0 0 0\nH@1.008 0 0 0.96\n--\nGh(He@4.0026) 0 0 3.0\nunits angstrom", "dtype": "psi4",
+     "angstrom_coords": [[0, 0, 0], [0, 0, 0.96], [0, 0, 3.0]]},
     {"model": "Provenance", "kwargs": {"creator": "x"}},
     {"model": "BasisSet", "kwargs": _basis([SHELL0, {"angular_momentum": [0, 1], "harmonic_type": "cartesian", "exponents": ["0.5", 3.0],
                                                       "coefficients": [[1, 2], [3, 4]]}], [ECP0])},
@@ -929,7 +1196,7 @@ def correspond(ctx):
     corr.rule = ("an instance is non-trivial if the implementation accepted it and emitted JSON; distinct = distinct emitted JSON text "
                  "per model; mutated documents are counted separately (distinct documents)")
     rng = ctx.rng
-    per_model = 1200 if ctx.thorough else 200
+    per_model = 1000 if ctx.thorough else 200
     n_mut = 3 if ctx.thorough else 2
     recipes = [("corpus", r) for r in CORPUS]
     for name in tr.SIX:
@@ -1011,6 +1278,25 @@ def correspond(ctx):
         _, _, vstrip, _ = schema_of(rc["model"])
         inst_terms.append(cinst(rc["model"], lax, info["inst"], info["doc"], not info["errors"], vstrip.is_valid(info["doc"])))
         inst_meta.append(rc)
+    n_molrec = 2500 if ctx.thorough else 400
+    for i in range(n_molrec + len(MOLREC_CORPUS)):
+        arrays = MOLREC_CORPUS[i] if i < len(MOLREC_CORPUS) else gen_molrec_arrays(rng)
+        try:
+            probs, core = molrec_oracle(arrays)
+        except Refused:
+            corr.hit("molrec_refused")
+            continue
+        corr.count("molrec")
+        corr.nontriv({"molrec": arrays})
+        if "mass" in arrays:
+            corr.hit("molrec_user_masses")
+        for p_ in probs:
+            corr.failures.append({"stream": "molrec", "case": {"molrec": arrays}, "what": p_["what"], "observed": p_["observed"]})
+        if core is not None:
+            nat, seps, frs, back = core
+            split_terms.append(f"({cn(nat)}, {clist(seps, cn)}, {clist(frs, lambda f: clist(f, cn))}, {clist(back, cn)})")
+            split_meta.append({"model": "molrec", "arrays": arrays})
+            corr.count("split")
     for rc in MUST_REJECT:
         corr.count("must-reject")
         try:
@@ -1120,6 +1406,12 @@ def replay(ctx, rp):
             return {"recipe": case["recipe"], "emitted": info["text"][:2000], "problems": probs, "fails": True,
                     "note": "this input must be refused"}
         return {"recipe": case["recipe"], "emitted": info["text"][:2000], "problems": probs, "fails": bool(probs)}
+    if "molrec" in case:
+        try:
+            probs, _ = molrec_oracle(case["molrec"])
+        except Refused as e:
+            return {"fails": False, "note": f"from_arrays refuses this input: {e}"[:300]}
+        return {"molrec": case["molrec"], "problems": probs, "fails": bool(probs)}
     if "requested" in case:
         from qcelemental.molparse import from_arrays, to_schema
         m = from_arrays(geom=[1.0, 0.0, 0.0, 0.0, 0.0, 3.0], elem=["He", "He"], units="Bohr")
